@@ -5,7 +5,7 @@ set -u
 name=$1; patch=$2; demo=$3; shift 3
 out=/verif/seeded/$name; mkdir -p "$out"
 FORC=/tmp/seed_forc_target/debug/forc
-cd /tmp/confirm && git checkout -q -- . && git clean -fdq -e target
+cd /tmp/confirm && git checkout -q -- . && git clean -fdq -e target && git checkout -q --detach $(git -C /repo rev-parse HEAD)
 rm -rf /tmp/confirm_demo && cp -r "$demo" /tmp/confirm_demo
 sed -i 's|path = "[^"]*sway-lib-std"|path = "/tmp/confirm/sway-lib-std"|' /tmp/confirm_demo/Forc.toml
 {
